@@ -192,7 +192,9 @@ def gen_case(run_seed: int, index: int, tier: str) -> dict:
                       "via": rng.choice([None, None, None, None, "deepcopy", "eval", "train_then_eval"]),
                       # the optional second output is requested call by call; bit inputs arrive in several dtypes
                       "second": bool(comp.get("second_output")) and rng.random() < 0.5,
-                      "dtype": rng.choice([None, None, None, "float64", "int32", "int64"]) if kind in ("encoder", "decoder_hard", "modulator") else None})
+                      "dtype": rng.choice([None, None, None, "float64", "int32", "int64", "float16", "bfloat16", "uint8"]) if kind in ("encoder", "decoder_hard", "modulator") else None,
+                      # every row is the same stored word (an expanded view, stride 0): rows must still be treated one by one
+                      "expanded": lay in ("2d", "batch") and rng.random() < 0.1})
     if rng.random() < 0.5 and calls:
         calls.append(copy.deepcopy(rng.choice(calls)))  # the same call repeated
     case["calls"] = calls
@@ -408,12 +410,17 @@ def execute(case: dict) -> RunResult:
         members = call["members"]
         if any(m >= len(tensors) for m in members):
             continue
-        x = _assemble(comp, [tensors[m] for m in members], lay)
-        if call.get("noncontig") and x.dim() >= 2:
+        if call.get("expanded") and len(members) >= 2:
+            members = [members[0]] * len(members)
+            x = tensors[members[0]].unsqueeze(0).expand(len(members), *tensors[members[0]].shape)
+            res.probes["input.expanded_view"] += 1
+        else:
+            x = _assemble(comp, [tensors[m] for m in members], lay)
+        if call.get("noncontig") and x.dim() >= 2 and not call.get("expanded"):
             x = x.transpose(0, -1).contiguous().transpose(0, -1)  # same values, non-contiguous memory
             res.probes["input.noncontiguous"] += 1
         if call.get("dtype"):
-            x = x.to({"float64": torch.float64, "int32": torch.int32, "int64": torch.int64}[call["dtype"]])
+            x = x.to({"float64": torch.float64, "int32": torch.int32, "int64": torch.int64, "float16": torch.float16, "bfloat16": torch.bfloat16, "uint8": torch.uint8}[call["dtype"]])
             res.probes[f"input.dtype_{call['dtype']}"] += 1
         x0 = x.clone()
         f = fn
@@ -457,10 +464,19 @@ def execute(case: dict) -> RunResult:
         for pos, (m, part) in enumerate(zip(members, parts)):
             ctxd = {"call": ci, "layout": lay_kind, "pos": pos, "batch": len(members), "fresh": call["fresh"], "dtype": call.get("dtype")}
             if isinstance(part, tuple):  # (decoded, second output): the first part joins the common answer set
-                answers[m].append((ctxd, part[0]))
-                answers2[m].append((ctxd, part[1]))
+                answers[m].append((ctxd, part[0].clone()))
+                answers2[m].append((ctxd, part[1].clone()))
             else:
-                answers[m].append((ctxd, part))
+                answers[m].append((ctxd, part.clone()))
+        # the caller owns what was returned and may overwrite it in place; that must not reach into the component
+        for o_ in (out if isinstance(out, tuple) else (out,)):
+            if isinstance(o_, torch.Tensor) and o_.numel() and o_.data_ptr() != x.data_ptr():
+                try:
+                    with torch.no_grad():
+                        o_.mul_(0).add_(3)
+                    res.probes["output.overwritten_by_caller"] += 1
+                except Exception:
+                    pass
     nontrivial = False
     for m, lst in answers.items():
         if len(lst) >= 2:
